@@ -247,8 +247,10 @@ def leakage_coq(sc, rng):
     e = np.zeros(K); e[k] = 1
     v = np.linalg.lstsq(G, e.astype(complex), rcond=None)[0]      # minimum-norm solution of a_j^H v = delta_jk
     j = int([jj for jj in range(K) if jj != k][int(rng.integers(0, K - 1))])
-    return 'check_leakage %d %s %s %s %s %s %s %s' % (
-        D, core.cmat(Pn), core.clist(a[k]), core.clist(x), core.clist(v), core.clist(a[j]), core.fhex(sig[j]), core.fhex(nu))
+    others = [jj for jj in range(K) if jj != k]
+    return 'check_leakage %d %s %s %s %s %s %s %s %s [%s]%%float' % (
+        D, core.cmat(Pn), core.clist(a[k]), core.clist(x), core.clist(v), core.clist(a[j]), core.fhex(sig[j]), core.fhex(nu),
+        core.cmat(a[others]), '; '.join(core.fhex(sig[jj]) for jj in others))
 
 
 def make(rng, tier, model=None):
